@@ -33,7 +33,7 @@ func main() {
 		err = genTags(os.Args[2], os.Args[3])
 	case "runasync":
 		err = genRunAsync(os.Args[2], os.Args[3])
-	case "gofn", "gofn-math", "gofn-mp", "gofn-httpgun", "gofn-istep", "gofn-waiter", "gofn-instance", "gofn-runinst":
+	case "gofn", "gofn-math", "gofn-mp", "gofn-httpgun", "gofn-istep", "gofn-waiter", "gofn-instance", "gofn-runinst", "gofn-phoutrun":
 		err = genGoFn(os.Args[1], os.Args[2], os.Args[3])
 	case "pooldeps":
 		err = genPoolDeps(os.Args[2], os.Args[3])
